@@ -451,19 +451,20 @@ func sizeBucket(n int) string {
 // ---------------------------------------------------------------------------------------------
 
 func Run(c *core.Ctx) {
-	c.Rule = "stream: message sequences (calls/notifications/responses, numeric and string ids, multi-byte and CRLFCRLF / Content-Length text inside) written by the real stream.Write and read by the real stream.Read under every chunking of a chunk grammar; raw payload sequences framed by the model; malformed and truncated header blocks; conn: concurrent callers/notifiers/repliers against a scripted peer. distinct non-trivial = distinct byte streams with at least one frame or a header-level error, and distinct connection histories"
+	c.Rule = "stream: message sequences (calls/notifications/responses, numeric and string ids, multi-byte and CRLFCRLF / Content-Length text inside) written by the real stream.Write and read by the real stream.Read under every chunking of a chunk grammar; raw payload sequences framed by the model; malformed and truncated header blocks; sequences of Writes (bodies from a size ladder up to ~130 KiB) over a connection that can fail at any Write after taking any part of it, with the writer's context cancelled before the Write or at the start / end of the k-th Write call made on the connection; conn: concurrent callers/notifiers/repliers against a scripted peer. distinct non-trivial = distinct byte streams with at least one frame or a header-level error, and distinct connection histories"
 	c.Trusted = append(c.Trusted,
 		"extraction: ExtrOcamlBasic only; ocaml/driver.ml; coq/extract/X18.v decodes schedules and prints states (glue, not verified)",
-		"Go harness internal/c18 (generators, chunking reader, scripted peer, the construction of a model schedule from an observed history) and the Go toolchain incl. the race detector",
+		"Go harness internal/c18 (generators, chunking reader, scripted peer, the scripted failing connection and the connection tap that cancel a context from inside a Write call, the construction of a model schedule from an observed history or from a write script) and the Go toolchain incl. the race detector",
 		"encoding/json (message codec) and bufio.Reader (chunking independence) are libraries: exercised, not modelled")
 	c.Assume = append(c.Assume,
 		"sync.Mutex, channels, atomic.AddInt32 and goroutines behave as the interleaving semantics of model/Rpc.v says; fewer than 2^31 calls per connection",
-		"writes to the underlying connection succeed (a failed write ends the connection; the model has no partial-write step)",
+		"a Write of the underlying connection that returns an error took fewer bytes than it was given, and every later Write on that connection fails without taking a byte (the connection is down; model: down s)",
 		"a peer answers each id at most once while the call is outstanding (otherwise the read loop can block: Example C18_ex_duplicate_reply_blocks_reader)")
 	c.Proofs()
 	streamWriteRead(c)
 	streamRaw(c)
 	streamMalformed(c)
+	streamFaulty(c)
 	connCheck(c)
 }
 
